@@ -17,7 +17,7 @@ TRUSTED = TRUSTED_M1
 
 def gen1(seed, index):
     rng = rng_for(PID, seed, index)
-    G = g.G(rng)
+    G = g.G(rng, tags=True, tempi=True)      # containers carry tags and tempi (opaque ids in the model)
     t = G.tree(kind=rng.choice(["S", "S", "P", "L", None]))
     bad = rng.random() < 0.08
     a = g.pick_time(rng, t, bad)
@@ -60,6 +60,9 @@ def rejects(t, s, e, top=True):
 
 
 def oracle(case, io, mo):
+    from props.m1common import alias_failure as _af
+    if case[0] != "hist" and _af(io):
+        return _af(io)
     if case[0] == "hist":
         return hist_oracle(oracle, case, io)
     t = sp.norm(case[1])
